@@ -732,6 +732,8 @@ func lifecycleHarness(rc *RunCtx) {
 		opLog = append(opLog, fmt.Sprintf("%s(settled=%v)->%v/%v", kind, settled, r.err, r.b))
 	}
 
+	var sockRan, sockCloseRet, sockAskRet, stallRan bool
+	var stallBad string
 	s.GoRoot("user", "user", func() {
 		if useMon {
 			lc.monSet, lc.monAlive = true, true
@@ -790,10 +792,79 @@ func lifecycleHarness(rc *RunCtx) {
 			tr.Close()
 			settle(time.Second)
 		}
+		if tp.Intn("sockisopen", 4) == 1 {
+			// The byte stream under the transport is a socket (thrift.TSocket, the usual choice): its IsOpen goes through
+			// the descriptor's read lock, which the read loop's pending Read holds until bytes arrive or the socket is
+			// closed. A fresh transport on a fresh stream, a quiet peer; somebody asks IsOpen, then the application closes.
+			rc.Fault("isopen-waits-behind-the-pending-read-like-a-socket")
+			st2 := NewSimStream(rc, "sock")
+			tr2 := frugal.NewAdapterTransport(st2)
+			if err := tr2.Open(); err == nil {
+				settle(50 * time.Millisecond)
+				st2.SetSocketIsOpen(true)
+				askRet, closeRet := false, false
+				s.Go("isopen-asker", func() { tr2.IsOpen(); askRet = true })
+				settle(time.Duration(1+tp.Intn("sockisopen", 20)) * time.Millisecond)
+				s.Go("closer", func() { tr2.Close(); closeRet = true })
+				settle(2 * time.Second)
+				sockCloseRet, sockAskRet = closeRet, askRet
+				sockRan = true
+				st2.SetSocketIsOpen(false) // lets the run end whatever happened
+				settle(time.Second)
+			}
+			st2.Kill()
+		}
+		if k := tp.Intn("wstall", 6); k == 1 || k == 2 {
+			// A write that never completes (the peer stopped reading) must not keep the transport from being closed: by the
+			// application (k == 1) or by the read loop when the connection then fails (k == 2). A fresh transport again.
+			rc.Fault("close-or-failure-while-a-write-is-stalled")
+			st3 := NewSimStream(rc, "stalled")
+			st3.WriteFault = func(i int, p []byte) (error, bool) { return nil, true }
+			tr3 := frugal.NewAdapterTransport(st3)
+			if err := tr3.Open(); err == nil {
+				ch := tr3.Closed()
+				reqRet := false
+				s.Go("stalled-caller", func() {
+					ctx := frugal.NewFContext("stalled")
+					ctx.SetTimeout(50 * time.Millisecond)
+					tr3.Request(ctx, EncodeFrame(ctx.RequestHeaders(), []byte("req")))
+					reqRet = true
+				})
+				settle(200 * time.Millisecond)
+				closeRet := k == 2
+				if k == 1 {
+					s.Go("closer", func() { tr3.Close(); closeRet = true })
+				} else {
+					st3.PeerEnd(ErrReset())
+				}
+				settle(2 * time.Second)
+				signalled := false
+				select {
+				case <-ch:
+					signalled = true
+				default:
+				}
+				isOpenRet, stillOpen := false, false
+				s.Go("isopen-asker", func() { stillOpen = tr3.IsOpen(); isOpenRet = true })
+				settle(time.Second)
+				stallRan = true
+				if !reqRet || !closeRet || !signalled || !isOpenRet || stillOpen {
+					stallBad = fmt.Sprintf("a request's write stalled for good (its caller timed out: %v); then %s; 2 s later: Close returned: %v, Closed() signalled: %v, IsOpen returned: %v (open: %v)",
+						reqRet, map[int]string{1: "the application called Close()", 2: "the connection was reset (read side fails)"}[k], closeRet, signalled, isOpenRet, stillOpen)
+				}
+			}
+			st3.Kill()
+		}
 		finished = true
 	})
 
 	s.Run(func() bool { return finished && !lc.monBusy })
+	if stallRan && stallBad != "" {
+		rc.Violate("C15", "not-closed-while-a-write-is-stalled", "adapter", stallBad)
+	}
+	if sockRan && (!sockCloseRet || !sockAskRet) {
+		rc.Violate("C15", "close-blocked-behind-isopen", "adapter", fmt.Sprintf("the stream under the transport answers IsOpen the way thrift.TSocket does (after the read loop's pending Read): IsOpen() was called on the open, idle transport, then Close(); 2 s later Close had returned: %v, IsOpen had returned: %v (nothing but Close can end that Read on a quiet connection)", sockCloseRet, sockAskRet))
+	}
 	rc.Sample["ops"] = opLog
 	rc.Sample["epochs"] = len(lc.epochs)
 
